@@ -89,6 +89,28 @@ TStep(e) ==
      \* reclaim: with nobody in a call the locker keeps nothing
      /\ (\A p \in Procs : ns[p] = "idle") => e.entries = 0
 
+(* A run {a, n, ok, nest, st, entries}: n repetitions of one lock call by an idle worker, issued   *)
+(* only where no repetition can be made to wait - were the worker parked in it, nothing would      *)
+(* justify that (checked here: Just is false for it) - so all n must have gone through (ok = n).   *)
+(*   nest = FALSE  n cycles of the call and its unlock: the worker is idle again, nothing changed  *)
+(*   nest = TRUE   n nested read locks of the call by one goroutine, all still held: the step of   *)
+(*                 that call with the worker holding (its unlock step gives all of them back)      *)
+TRun(e) ==
+  LET a   == e.a
+      s2  == [st EXCEPT ![a.p] = "parked"]
+      ks2 == [ks EXCEPT ![a.p] = SetOf(a.ks)]
+      md2 == [md EXCEPT ![a.p] = a.m]
+      g2  == [got EXCEPT ![a.p] = {}]
+  IN /\ a.op = "call" /\ st[a.p] = "idle" /\ e.n >= 1
+     /\ Just(a.p, s2, ks2, md2, g2) = FALSE
+     /\ e.ok = e.n
+     /\ IF e.nest
+        THEN a.m = "r" /\ NewSt(e)[a.p] = "held" /\ TStep(e)
+        ELSE /\ NewSt(e) = st
+             /\ Compat([st EXCEPT ![a.p] = "held"], ks2, md2, got) = TRUE
+             /\ ((\A p \in Procs : st[p] = "idle") => e.entries = 0)
+             /\ UNCHANGED <<st, ks, md, got>>
+
 (* free-running stress: monitor events inside the critical sections *)
 TMon(e) ==
   /\ IF e.kind = "in"
@@ -109,6 +131,7 @@ TraceNext ==
   /\ LET e == TraceLog[l] IN
        CASE e.ev = "reset" -> TReset(e)
          [] e.ev = "step"  -> TStep(e)
+         [] e.ev = "run"   -> TRun(e)
          [] e.ev = "mon"   -> TMon(e)
          [] e.ev = "end"   -> TEnd(e)
          [] OTHER -> FALSE
